@@ -491,6 +491,36 @@ func c15Queue() []core.Scenario {
 		}
 	}))
 	// Q12: everything after Close returned reports it
+	for _, fill := range []int{0, 1, 5, 6, 9} {
+		fill := fill
+		out = append(out, c15Scenario(fmt.Sprintf("Q-after-close-filled%d", fill), "BufferedChannelQueue", func(c *core.Ctx, id string) {
+			// closed empty, partly filled, completely full (channel 2 + buffer 4) and after refused Offers
+			q := mkQ(2, 4)
+			for i := 1; i <= fill; i++ {
+				q.Offer(i)
+			}
+			q.Close()
+			rep := map[string]any{"scenario": id, "values_held_at_close": fill}
+			pv, where := core.Catch(func() {
+				for k := 0; k < 3; k++ {
+					if err := q.Offer(9); err != fpgo.ErrQueueIsClosed {
+						c.Violationf("after-close:Offer", rep, "Offer after Close returned %v (the queue held %d values when it was closed; capacity 2+4)", err, fill)
+						break
+					}
+					if err := q.Put(9); err != fpgo.ErrQueueIsClosed {
+						c.Violationf("after-close:Put", rep, "Put after Close returned %v (the queue held %d values when it was closed; capacity 2+4)", err, fill)
+						break
+					}
+				}
+				if !q.IsClosed() || q.Count() != 0 {
+					c.Violationf("after-close:IsClosed", rep, "after Close: IsClosed=%v Count=%d", q.IsClosed(), q.Count())
+				}
+			})
+			if pv != nil {
+				c.Violationf("after-close:panic:"+core.NormalizePanic(fmt.Sprint(pv)), rep, "an operation after Close returned panics: %v at %s", pv, where)
+			}
+		}))
+	}
 	out = append(out, c15Scenario("Q-after-close", "BufferedChannelQueue", func(c *core.Ctx, id string) {
 		q := mkQ(2, 4)
 		for i := 1; i <= 5; i++ {
